@@ -48,7 +48,7 @@ Print Assumptions C13_tc_off_on.
 
 (** The excluded case is real (the documented ambiguity). *)
 Theorem C13_ambiguity :
-  let d := {| d_tc := false; d_proj_tc := false; d_reserved := [s2l "FROM"] |} in
+  let d := (mk_dial false false [s2l "FROM"]) in
   let ts := [ {| tok := TWord (s2l "a") None no_keyword; line := 1; col := 1 |};
               {| tok := TP PComma; line := 1; col := 2 |}; kw_from ] in
   fst (comma_sep 5 word_elem d (init_state ts false 50)) <> fst (comma_sep 5 word_elem d (init_state ts true 50)).
